@@ -216,6 +216,7 @@ class Shims:
                 self.running = 0
                 self.max_running = 0
                 self.max_queued = 0
+                self.max_inflight = 0
                 shims.executors.append(self)
 
             def submit(self, fn, *args, **kwargs):
@@ -224,6 +225,7 @@ class Shims:
                 f = CoopFuture()
                 self.queue.append((f, fn, args, kwargs))
                 self.max_queued = max(self.max_queued, len(self.queue))
+                self.max_inflight = max(self.max_inflight, len(self.queue) + self.running)
                 if self.idle == 0 and len(self.workers) < self.max_workers:
                     w = s.spawn(self._worker, '%s-w%d' % (self.name, len(self.workers)))
                     self.workers.append(w)
